@@ -103,7 +103,7 @@ def strip_bits(j):
 
 def strip_dt(j):
     if isinstance(j, dict):
-        if j.get('t') == 'dt': return {'t': 'dt', 'tz': j.get('tz')}
+        if j.get('t') == 'dt': return {'t': 'dt', 'tz': j.get('tz'), 'secs': j.get('secs'), 'ns': j.get('ns')}
         return {k: strip_dt(v) for k, v in j.items()}
     if isinstance(j, list): return [strip_dt(x) for x in j]
     return j
